@@ -417,3 +417,35 @@ func (inv *invocation) entryArg(th ir.TypeHandle, bp *ir.Binding) Val {
 	}
 	return v
 }
+
+// BufferSize is the number of bytes a buffer bound to global variable g must
+// have; a trailing runtime-sized array is given rtElems elements.
+func BufferSize(m *ir.Module, g ir.GlobalVariableHandle, rtElems int) (size int, err error) {
+	defer func() {
+		if r := recover(); r != nil {
+			if p, ok := r.(trapPanic); ok {
+				err = errors.New(p.msg)
+				return
+			}
+			panic(r)
+		}
+	}()
+	if int(g) >= len(m.GlobalVariables) {
+		return 0, fmt.Errorf("global variable %d out of range", g)
+	}
+	mc := &machine{m: m}
+	in := mc.inner(m.GlobalVariables[g].Type)
+	switch t := in.(type) {
+	case ir.ArrayType:
+		if t.Size.Constant == nil {
+			return rtElems * int(t.Stride), nil
+		}
+	case ir.StructType:
+		if n := len(t.Members); n > 0 {
+			if at, ok := mc.inner(t.Members[n-1].Type).(ir.ArrayType); ok && at.Size.Constant == nil {
+				return int(t.Members[n-1].Offset) + rtElems*int(at.Stride), nil
+			}
+		}
+	}
+	return mc.sizeOf(in), nil
+}
